@@ -99,7 +99,7 @@ def op_wire(o):
 def cfg_wire(c):
     return {"name": lib.l1(c["name"]), "opts": c["opts"], "nsdelim": lib.l1(c["nsdelim"]), "envdelim": lib.l1(c["envdelim"]),
             "handler": c["handler"], "cmdhandler": c["cmdhandler"], "usage": lib.l1(c.get("usage", b"")),
-            "env": [[lib.l1(k), lib.l1(v)] for k, v in c.get("env", [])], "cols": c.get("cols", 80), "subopt": c.get("subopt", False),
+            "env": [[lib.l1(k), lib.l1(v)] for k, v in c.get("env", [])], "cols": c.get("cols", 80), "tty": c.get("tty", False), "subopt": c.get("subopt", False),
             "shortdesc": lib.l1(c.get("shortdesc", b"")), "longdesc": lib.l1(c.get("longdesc", b""))}
 
 
@@ -258,7 +258,7 @@ def parse_model_output(b):
 
 
 def normalise_go(r):
-    out = {"setup": r.get("setup"), "ops": [], "fatal": r.get("fatal")}
+    out = {"setup": r.get("setup"), "ops": [], "fatal": r.get("fatal"), "nondet": r.get("nondet"), "other": r.get("other")}
     for o in r.get("ops") or []:
         d = {k: o.get(k, "") for k in OP_KEYS if k in o or k in ("panic", "err", "ret", "vals", "active", "calls", "exec", "unknown", "out", "attached")}
         out["ops"].append(d)
